@@ -94,6 +94,37 @@ def m_unknown_elem_type(mp, rng):
     v.type.tensor_type.elem_type = rng.choice([4242, -5, 0, 27, 100])
 
 
+def m_partial_type(mp, rng):
+    """A type that says something but not what kind of elements: a tensor type with a shape and no element type,
+    a type with nothing but a denotation, a sequence/optional wrapper around nothing."""
+    cands = [v for g in _all_graphs(mp) for v in g.value_info]
+    vis = cands if cands and rng.random() < 0.7 else [v for g in _all_graphs(mp) for v in list(g.input) + list(g.output)]
+    if not vis:
+        node = _ensure_node(mp, rng)
+        if not node.output:
+            node.output.append("mut_partial")
+        vis = [mp.graph.value_info.add()]
+        vis[0].name = node.output[0]
+    v = rng.choice(vis)
+    kind = rng.randrange(4)
+    if kind == 0:
+        shape_dims = list(v.type.tensor_type.shape.dim) if v.type.WhichOneof("value") == "tensor_type" else []
+        v.type.Clear()
+        v.type.tensor_type.shape.dim.extend(shape_dims)
+        if not shape_dims:
+            v.type.tensor_type.shape.dim.add().dim_value = 3
+    elif kind == 1:
+        v.type.Clear()
+        v.type.denotation = "TENSOR"
+    elif kind == 2:
+        v.type.Clear()
+        v.type.sequence_type.elem_type.denotation = ""
+        v.type.sequence_type.SetInParent()
+    else:
+        v.type.Clear()
+        v.type.optional_type.elem_type.tensor_type.shape.dim.add().dim_param = "N"
+
+
 def m_unknown_attr_type_bytes(mp, rng):
     """An AttributeProto whose 'type' carries an enum number unknown to the schema (only expressible in bytes)."""
     n = _ensure_node(mp, rng)
@@ -299,6 +330,7 @@ def m_model_shape(mp, rng):
 FIELD_MUTATORS = [
     ("unknown-enum:tensor.data_type", m_unknown_dtype),
     ("unknown-enum:elem_type", m_unknown_elem_type),
+    ("type:partial", m_partial_type),
     ("unknown-enum:attribute.type(bytes)", m_unknown_attr_type_bytes),
     ("unknown-enum:data_location(bytes)", m_unknown_data_location_bytes),
     ("attribute:type-payload-mismatch", m_attr_type_mismatch),
